@@ -32,6 +32,7 @@ type Case struct {
 	Yield   []int   `json:"yield"`   // per goroutine (readers first)
 	Procs   int     `json:"procs"`
 	Repeat  int     `json:"repeat"`
+	Grown   bool    `json:"grown,omitempty"`   // the shared buffer got its storage from a growing Append (capacity chosen by the runtime, no spare frames assumed)
 	Pooled  bool    `json:"pooled,omitempty"`  // the shared buffer is obtained from a pool allocator instead of Alloc
 	Partial int     `json:"partial,omitempty"` // single samples appended to the shared buffer before the goroutines start (a partial last frame), < C
 }
@@ -237,13 +238,40 @@ func valid(c *Case) bool {
 	return true
 }
 
-// spareFrames: frames of capacity beyond the length of the shared buffer.
-func spareFrames(c *Case) int { return 2 + c.F%3 }
+// spareFrames: frames of capacity beyond the length of the shared buffer (none
+// are assumed for a buffer that got its storage from a growing Append: its
+// capacity is the runtime's choice).
+func spareFrames(c *Case) int {
+	if c.Grown {
+		return 0
+	}
+	return 2 + c.F%3
+}
 
 func fill(c *Case) kit.AnyBuf {
 	spare := spareFrames(c)
 	al := signal.Allocator{Channels: c.C, Length: c.F, Capacity: c.F + spare}
 	b := kit.AllocAny(c.T, al)
+	if c.Grown && c.C*c.F+c.Partial >= 2 {
+		// the shared buffer got its storage from a growing Append (one sample, then the rest appended);
+		// nothing else touches its header before the goroutines start - in particular neither Cap()
+		// nor Slice() is called on it, so anything those do lazily happens concurrently
+		n := c.C*c.F + c.Partial
+		g := kit.AllocAny(c.T, signal.Allocator{Channels: c.C, Length: 0, Capacity: 1})
+		val := func(i int) kit.Val {
+			if i < c.C*c.F {
+				return kit.IV(int64(1 + i%100))
+			}
+			return kit.IV(int64(101 + i - c.C*c.F))
+		}
+		g.AppendSample(val(0))
+		src := kit.AllocAny(c.T, signal.Allocator{Channels: c.C, Length: 0, Capacity: n/c.C + 1})
+		for i := 1; i < n; i++ {
+			src.AppendSample(val(i))
+		}
+		g.Append(src)
+		return g
+	}
 	if c.Pooled {
 		// the shared buffer comes out of a pool (after one round trip through it)
 		pool := kit.NewAnyPool(c.T, al)
@@ -378,6 +406,9 @@ func FP(c *Case) uint64 {
 	if c.Pooled {
 		h.Int(1)
 	}
+	if c.Grown {
+		h.Int(2)
+	}
 	h.Ints(c.Bounds)
 	h.Ints(c.Yield)
 	for _, s := range c.Readers {
@@ -447,6 +478,15 @@ func Gen(t *rapid.T) *Case {
 	}
 	c.Procs = rapid.SampledFrom([]int{1, 2, 4, 8, 16}).Draw(t, "procs")
 	c.Pooled = rapid.IntRange(0, 2).Draw(t, "pooled") == 0
+	if rapid.IntRange(0, 3).Draw(t, "grown") == 0 && c.F >= 1 {
+		// no spare frames are assumed: the windows must end at the length
+		c.Grown, c.Pooled = true, false
+		for i := range c.Bounds {
+			if c.Bounds[i] > c.F {
+				c.Bounds[i] = c.F
+			}
+		}
+	}
 	c.Repeat = 1
 	if c.C >= 2 && rapid.IntRange(0, 2).Draw(t, "partialSel") == 0 {
 		c.Partial = rapid.IntRange(1, c.C-1).Draw(t, "partial")
